@@ -17,12 +17,19 @@ M45 == {<<<<4, 1, 0, 1>>, <<1, 5, 1, 0>>, <<0, 1, 4, 2>>, <<1, 0, 1, 3>>>>,
         <<<<0, 2, 1, 0>>, <<1, 0, 0, 2>>, <<2, 1, 0, 1>>, <<0, 0, 3, 1>>>>,
         <<<<1, 2, 0, 0, 0>>, <<2, 4, 1, 0, 0>>, <<0, 1, 1, 1, 0>>, <<0, 0, 1, 2, 1>>, <<0, 0, 0, 1, 1>>>>,
         <<<<6, 1, 0, 1, 1>>, <<1, 7, 1, 0, 2>>, <<0, 1, 5, 2, 1>>, <<1, 0, 1, 6, 0>>, <<2, 1, 0, 1, 8>>>>}
+\* structured 4x4 / 5x5 families: tridiagonal, arrow (fill-in during elimination), cyclic shifts of a dominant matrix (chained row swaps)
+Tri(n, a, b, lo) == [i \in 1..n |-> [j \in 1..n |-> IF i = j THEN a ELSE IF j = i + 1 THEN b ELSE IF i = j + 1 THEN lo ELSE 0]]
+Arrow(n, a, b) == [i \in 1..n |-> [j \in 1..n |-> IF i = j THEN a + i ELSE IF i = 1 \/ j = 1 \/ i = n THEN b ELSE 0]]
+Shift(A, k) == [i \in 1..Len(A) |-> A[(((i + k) - 1) % Len(A)) + 1]]
+MS == {Tri(n, a, b, lo) : n \in {4, 5}, a \in {2, 3}, b \in {-1, 1}, lo \in {1, 2}}
+      \cup {Arrow(n, a, b) : n \in {4, 5}, a \in {2, 5}, b \in {1, -2}}
+      \cup {Shift(Tri(n, 4, 1, -1), k) : n \in {4, 5}, k \in 1..3} \cup {Shift(Arrow(4, 3, 1), k) : k \in 1..3}
 NonSing(S) == {A \in S : Det(A) # 0}
 RHS1(n) == [i \in 1..n |-> <<i, 1>>]
 RHS(n) == {RHS1(n), [i \in 1..n |-> <<((i * i) % 3) - 1, 2 - i>>]}
 SeqMats == {<<<<0, 1>>, <<1, 0>>>>, <<<<2, 1>>, <<1, 3>>>>, <<<<1, 2>>, <<3, 4>>>>}
 Calls == {"identity", "pivot", "inverse", "determinant", "lu_factor"}
-Init == /\ c \in {[kind |-> "matrix", A |-> A] : A \in NonSing(M2) \cup NonSing(M3) \cup NonSing(M45)}
+Init == /\ c \in {[kind |-> "matrix", A |-> A] : A \in NonSing(M2) \cup NonSing(M3) \cup NonSing(M45) \cup NonSing(MS)}
                \cup {[kind |-> "sequence", n |-> n] : n \in 2..MaxSeq} \cup {[kind |-> "helpers"]}
         /\ out = [op |-> "init"]
 Facts(A) == [det |-> Det(A), inv |-> Inverse(A), dd |-> DiagDominant(A), lmn |-> LeadingMinorsNonzero(A), swap |-> NeedsSwap(A), ppzm |-> ~LeadingMinorsNonzero(PrePivot(A))]
